@@ -318,6 +318,11 @@ def stepLine (st : DState) (line : String) : DState × String :=
       match cap.toNat?, n.toNat? with
       | some cap, some n => (st, toString (Logs.flushEvents cap n))
       | _, _ => (st, "bad-op")
+  | ["logs", "dumptrace", mx, n] =>
+      -- the number of dumps in the directory at every moment of one write_all that finds n dumps there
+      match mx.toNat?, n.toNat? with
+      | some mx, some n => (st, ",".intercalate ((Logs.dumpTrace mx (List.range n) n).map fun l => toString l.length))
+      | _, _ => (st, "bad-op")
   | "logs" :: "dump" :: mx :: newId :: ids =>
       match mx.toNat?, newId.toNat? with
       | some mx, some nid =>
